@@ -5,7 +5,9 @@ from . import common, pool
 ID = 'C07'
 MIN_OBLIGATIONS = 50
 TRUSTED = [pool.pworker_class().text, common.TEXT['target']]
-ASSUMPTIONS = []
+ASSUMPTIONS = [
+    'A-wid: handle_new_result reads run()\'s local `wid` in a log line; at its only call site that local has just been unpacked from the message and the worker looked up under it, so it is bound and equals worker.id - assumed in lemma Ln, not re-checked at the call site (since arguments of logger.* calls are evaluated, an unbound `wid` there would be an UnboundLocalError out of Pool.run)',
+]
 
 
 MUTANTS = [
